@@ -3,7 +3,7 @@ PROP = {
     "coq_targets": ["Properties/C07.vo", "Extract/C23Extract.vo"],
     "properties_file": "Properties/C07.v",
     "theorems": ["C07_withdraws_everything", "C07_refcounts_exact", "C07_every_exit_uninits",
-                 "C07_reestablish_starts_empty"],
+                 "C07_reestablish_starts_empty", "C07_loop_detection_intact"],
     "allowed_axioms": [],
     "harness": "c07",
     "modelrun": {"name": "c07", "extracted": ["c23_model"], "driver": "ocaml/c23/c23_run.ml"},
